@@ -1,7 +1,8 @@
 (** Extraction of the executable C08 models and of the specification deciders used as oracle. *)
 From Coq Require Import Extraction ExtrOcamlBasic.
-From XV Require Import C08.Spec08 C08.Model08 C08.ModelDfa08.
+From XV Require Import C08.Spec08 C08.Model08 C08.ModelDfa08 C08.SpecElem08 C08.ModelElem08 C08.Proofs08j.
 Extraction Language OCaml.
 Extraction "../ocaml/C08/gen_c08.ml"
   pmatch wildcard_allows constraint_of attrs_valid defaulted m_attrs_valid m_defaulted m_xsitype xsitype_okb build_dfa dfa_validate d_ok m_subst subst_okb m_wexpr m_wexpr_faithful wexpr_allows m_att_derivation attr_restriction_ok
+  cls_nildefault cls_mixedvc cls_nilws pleaf_match spec_leaf m_elem_check elem_valid elem_value m_walk tree_valid m_conflict str_eqb
   model_valid content_tree use_repeating any_match all_validate.
